@@ -16,11 +16,12 @@ from .common import Check
 LEVEL = "exploration"
 BATCH = 400
 ALPHABET = ["char", "int", "llong", "bool", "float", "double", "ptr", "fnptr12", "fnptr13", "arr2i", "arr32", "arr33", "zla", "enum",
-            "bfA", "bf32B", "bf33B", "nestplain", "nestfloat", "ptrarr", "anonu", "fntd2", "fntd13", "pfntd13", "arr2x40", "arrfn13", "arrarr33"]
+            "bfA", "bf32B", "bf33B", "nestplain", "nestfloat", "ptrarr", "anonu", "fntd2", "fntd13", "pfntd13", "arr2x40", "arrfn13", "arrarr33",
+            "fnv12", "fnv13", "fnv1"]
 INT_ATOMS = {"char", "uchar", "short", "int", "uint", "llong", "bool", "td", "arr2i", "arr3c", "arr32", "nestplain", "bfA"}
 FLOAT_ATOMS = {"float", "double", "nestfloat"}
-PTR_ATOMS = {"ptr", "cptr", "fnptr12", "ptrarr", "fntd2"}
-FN13 = {"fnptr13", "fntd13", "pfntd13", "arrfn13"}
+PTR_ATOMS = {"ptr", "cptr", "fnptr12", "ptrarr", "fntd2", "fnv12", "fnv1"}
+FN13 = {"fnptr13", "fntd13", "pfntd13", "arrfn13", "fnv13"}
 LARGE = {"arr33", "arr2x40", "arrarr33"}   # element count (or an element's element count) past the 32 limit: only Default is affected on current targets
 TRAITS = ["Copy", "Clone", "Debug", "Default", "Hash", "PartialEq", "PartialOrd", "Eq", "Ord"]
 # option bits: (name, flag when bit set, trait it governs, default-on?)
@@ -182,6 +183,7 @@ def run(ck, only=None):
         behaviour(ck, cases)
     if not only or only.get("cxx"):
         cxx_rules(ck)
+        excluded_types(ck)
     ck.assume("the specification is deliberately three-valued: anything the property does not constrain (non-plain attributes, mixed "
               "members, trait dependencies such as Eq without PartialEq) is FREE; enum members are integers under the default enum style")
 
@@ -272,6 +274,76 @@ def cxx_rules(ck):
         ck.nontriv(("cxx", t, tr))
         if t in dv and tr not in dv[t][0] and tr not in impls.get(t, set()):
             ck.violation(f"cxx-rules type={t} trait={tr} withheld", {"cxx": True, "why": f"{tr} is withheld from {t} although every constituent supports it (derives={dv[t][0]})"})
+
+
+# user-excluded types: --no-copy / --no-debug / --no-default / --no-hash / --no-partialeq <regex> must keep the trait off the type
+# whether it would be derived or written by hand; patterns address the type by its C++ path (global, namespaced, nested).
+EXCL_HPP = r"""
+struct Small { int a; short b; };
+struct Big { int a; char big[40]; };            // Debug / Default / PartialEq of this one are written by hand when asked for
+struct Ptr { int *p; int n; };                  // Default written by hand
+namespace ns { struct Small { int a; short b; }; struct Big { int a; char big[40]; }; struct Ptr { int *p; int n; };
+               namespace deep { struct Big { long l; double arr[33]; }; } }
+struct Outer { struct Inner { int a; char big[40]; } in; int z; };
+struct Ctl { int a; char big[40]; };            // control: never excluded
+namespace ns { struct Ctl { int a; char big[40]; }; }
+"""
+EXCL_TYPES = [("Small", "Small", "Small"), ("Big", "Big", "Big"), ("Ptr", "Ptr", "Ptr"), ("ns::Small", "ns_Small", "Small"), ("ns::Big", "ns_Big", "Big"),
+              ("ns::Ptr", "ns_Ptr", "Ptr"), ("ns::deep::Big", "ns_deep_Big", "Big"), ("Outer_Inner", "Outer_Inner", "Outer_Inner")]   # nested classes are addressed by their flattened name
+EXCL_OPTS = [("--no-copy", ["Copy", "Clone"]), ("--no-debug", ["Debug"]), ("--no-default", ["Default"]), ("--no-hash", ["Hash"]), ("--no-partialeq", ["PartialEq"])]
+
+
+def excluded_types(ck):
+    wd = os.path.join(ck.wd, "excl")
+    os.makedirs(wd, exist_ok=True)
+    hp = os.path.join(wd, "excl.hpp")
+    open(hp, "w").write(EXCL_HPP)
+    base = ["--with-derive-default", "--with-derive-hash", "--with-derive-partialeq", "--impl-debug", "--impl-partialeq"]
+    jobs, info = [], {}
+    for path, flat, nsname in EXCL_TYPES:
+        for opt, traits in EXCL_OPTS:
+            for nsmode in (False, True):
+                for form in ("exact", "regex"):
+                    pat = path if form == "exact" else path.replace("::", "::").replace("Big", "B.g").replace("Small", "Sm.*l").replace("Ptr", "P[t]r").replace("Inner", "In+er")
+                    jid = f"{path}|{opt}|{int(nsmode)}|{form}"
+                    jobs.append({"id": jid, "args": [hp, "--formatter", "none", "--no-layout-tests"] + base + [opt, pat] + (["--enable-cxx-namespaces"] if nsmode else [])
+                                 + ["--", "-x", "c++", "-std=c++14"], "inventory": True, "text": False})
+                    info[jid] = (path, flat, nsname, opt, traits, nsmode)
+    res = common.run_jobs(jobs, wd, timeout=60)
+
+    def view(inv, nsmode):
+        """rust path -> (derives, hand-written trait impls)"""
+        out = {}
+
+        def walk(items, prefix):
+            for it in items:
+                if it["kind"] == "mod":
+                    walk(it["items"], prefix + [it["name"]])
+                elif it["kind"] in ("struct", "union"):
+                    out.setdefault("::".join(prefix + [it["name"]]), [set(), set()])[0].update(it["derives"])
+                elif it["kind"] == "impl" and it.get("trait"):
+                    out.setdefault("::".join(prefix + [it["self_ty"].split("::")[-1]]), [set(), set()])[1].add(it["trait"].split("::")[-1].split("<")[0])
+        walk(inv["items"], [])
+        return out
+    for jid, (path, flat, nsname, opt, traits, nsmode) in info.items():
+        r = res[jid]
+        ck.count()
+        common.guard(r["status"] == "ok", f"C08 exclusion header failed to generate for {jid}: {str(r)[:200]}")
+        v = view(r["inventory"], nsmode)
+        key = ("root::" + "::".join(path.split("::")[:-1] + [nsname])) if nsmode else flat
+        ctl = "root::Ctl" if nsmode else "Ctl"
+        if key not in v or ctl not in v:
+            raise common.Machinery(f"C08 exclusion part: type {key} / {ctl} not found in the bindings of {jid} ({sorted(v)[:12]})")
+        for tr in traits:
+            ck.nontriv(("excl", jid, tr))
+            if tr in v[key][0] or tr in v[key][1]:
+                ck.violation(f"excluded type={path} option={opt} namespaces={nsmode} form={jid.split('|')[3]} trait={tr} present",
+                             {"excl": True, "why": f"`{opt} {path}` was given, yet {key} has {tr} ({'derived' if tr in v[key][0] else 'written by hand'})"})
+            # the control type (same shape, not matched) must keep the trait, derived or written by hand
+            if tr not in v[ctl][0] and tr not in v[ctl][1]:
+                ck.violation(f"excluded type={path} option={opt} namespaces={nsmode} control-lost trait={tr}",
+                             {"excl": True, "why": f"`{opt} {path}` removed {tr} from the unrelated type {ctl}"})
+    ck.extra["exclusion_runs"] = len(jobs)
 
 
 BEHAVIOUR_RS = r'''
